@@ -23,7 +23,7 @@
 (***************************************************************************)
 EXTENDS Naturals, Sequences, FiniteSets, TLC
 
-CONSTANTS Genesis
+CONSTANTS Genesis, Unavailable
 
 VARIABLES
   synced,     \* store option Synced
@@ -38,9 +38,10 @@ VARIABLES
   cont,       \* id -> content digest the committer wrote (recorded when its commit call returned)
   seen,       \* <<read path, id>> -> content digest first observed through that read path
   everPre,    \* every <<id, alh>> that was ever precommitted
+  cut,        \* values of txs with id < cut may have been discarded by value-log truncation
   open        \* store is open
 
-vars == <<synced, extAllow, log, committed, allowed, cflushed, cdurable, hist, acked, cont, seen, everPre, open>>
+vars == <<synced, extAllow, log, committed, allowed, cflushed, cdurable, hist, acked, cont, seen, everPre, cut, open>>
 
 InmemPre == Len(log)
 AlhAt(n) == IF n = 0 THEN Genesis ELSE log[n].alh
@@ -49,7 +50,7 @@ Min(a, b) == IF a < b THEN a ELSE b
 
 StoreInit(s, e) ==
   /\ synced = s /\ extAllow = e /\ log = <<>> /\ committed = 0 /\ allowed = 0
-  /\ cflushed = 0 /\ cdurable = 0 /\ hist = <<>> /\ acked = {} /\ cont = <<>> /\ seen = <<>> /\ everPre = {} /\ open = TRUE
+  /\ cflushed = 0 /\ cdurable = 0 /\ hist = <<>> /\ acked = {} /\ cont = <<>> /\ seen = <<>> /\ everPre = {} /\ cut = 0 /\ open = TRUE
 
 \* performPrecommit: tx `id` gets its header; blOk = the embedded BlRoot is the root of the hash tree over
 \* the accumulated hashes of txs 1..bl; ahtSize = size of the hash tree afterwards
@@ -63,17 +64,17 @@ Precommit(id, alh, prev, bl, blOk, ahtSize, maxActive) ==
   /\ (synced => InmemPre < committed + maxActive)
   /\ log' = Append(log, [alh |-> alh, prev |-> prev, bl |-> bl, vdur |-> FALSE, tdur |-> FALSE])
   /\ everPre' = everPre \cup {<<id, alh>>}
-  /\ UNCHANGED <<synced, extAllow, committed, allowed, cflushed, cdurable, hist, acked, cont, seen, open>>
+  /\ UNCHANGED <<synced, extAllow, committed, allowed, cflushed, cdurable, hist, acked, cont, seen, cut, open>>
 
 VLogsSynced ==
   /\ open
   /\ log' = [n \in 1..Len(log) |-> [log[n] EXCEPT !.vdur = TRUE]]
-  /\ UNCHANGED <<synced, extAllow, committed, allowed, cflushed, cdurable, hist, acked, cont, seen, everPre, open>>
+  /\ UNCHANGED <<synced, extAllow, committed, allowed, cflushed, cdurable, hist, acked, cont, seen, everPre, cut, open>>
 
 TxLogSynced(upto) ==
   /\ open /\ upto = InmemPre
   /\ log' = [n \in 1..Len(log) |-> [log[n] EXCEPT !.tdur = TRUE]]
-  /\ UNCHANGED <<synced, extAllow, committed, allowed, cflushed, cdurable, hist, acked, cont, seen, everPre, open>>
+  /\ UNCHANGED <<synced, extAllow, committed, allowed, cflushed, cdurable, hist, acked, cont, seen, everPre, cut, open>>
 
 \* commit entries for from+1..to written at offset `from` of the commit log
 CLogFlushed(from, to) ==
@@ -84,12 +85,12 @@ CLogFlushed(from, to) ==
   /\ (synced => \A n \in (from + 1)..to : log[n].vdur /\ log[n].tdur)
   /\ cflushed' = to
   /\ cdurable' = Min(cdurable, from)        \* entries past `from` are being rewritten
-  /\ UNCHANGED <<synced, extAllow, log, committed, allowed, hist, acked, cont, seen, everPre, open>>
+  /\ UNCHANGED <<synced, extAllow, log, committed, allowed, hist, acked, cont, seen, everPre, cut, open>>
 
 CLogSynced(upto) ==
   /\ open /\ upto = cflushed
   /\ cdurable' = cflushed
-  /\ UNCHANGED <<synced, extAllow, log, committed, allowed, cflushed, hist, acked, cont, seen, everPre, open>>
+  /\ UNCHANGED <<synced, extAllow, log, committed, allowed, cflushed, hist, acked, cont, seen, everPre, cut, open>>
 
 Committed(upto, alh) ==
   /\ open /\ upto > committed /\ upto <= InmemPre
@@ -98,7 +99,7 @@ Committed(upto, alh) ==
   /\ alh = AlhAt(upto)                      \* the reported state is the hash of the last committed tx
   /\ committed' = upto
   /\ hist' = hist \o [k \in 1..(upto - committed) |-> log[committed + k].alh]
-  /\ UNCHANGED <<synced, extAllow, log, allowed, cflushed, cdurable, acked, cont, seen, everPre, open>>
+  /\ UNCHANGED <<synced, extAllow, log, allowed, cflushed, cdurable, acked, cont, seen, everPre, cut, open>>
 
 Discard(since, n) ==
   /\ open /\ since > committed /\ since <= InmemPre     \* committed txs are never discarded
@@ -106,12 +107,12 @@ Discard(since, n) ==
   /\ log' = SubSeq(log, 1, since - 1)
   /\ allowed' = allowed                     \* (the code keeps the allowance; it is clamped when used)
   /\ cflushed' = Min(cflushed, committed) /\ cdurable' = Min(cdurable, committed)
-  /\ UNCHANGED <<synced, extAllow, committed, hist, acked, cont, seen, everPre, open>>
+  /\ UNCHANGED <<synced, extAllow, committed, hist, acked, cont, seen, everPre, cut, open>>
 
 Allow(upto) ==
   /\ open /\ extAllow /\ upto <= InmemPre     \* (the code may also lower the allowance after a discard: harmless)
   /\ allowed' = upto
-  /\ UNCHANGED <<synced, extAllow, log, committed, cflushed, cdurable, hist, acked, cont, seen, everPre, open>>
+  /\ UNCHANGED <<synced, extAllow, log, committed, cflushed, cdurable, hist, acked, cont, seen, everPre, cut, open>>
 
 \* a commit call returned (id, alh) to its caller, who wrote `content`
 Ack(id, alh, content) ==
@@ -121,7 +122,7 @@ Ack(id, alh, content) ==
   /\ (<<"ReadTx", id>> \in DOMAIN seen => seen[<<"ReadTx", id>>] = content)
   /\ acked' = acked \cup {id}
   /\ cont' = (id :> content) @@ cont
-  /\ UNCHANGED <<synced, extAllow, log, committed, allowed, cflushed, cdurable, hist, seen, everPre, open>>
+  /\ UNCHANGED <<synced, extAllow, log, committed, allowed, cflushed, cdurable, hist, seen, everPre, cut, open>>
 
 \* a committed tx re-read through the public API: header hash `alh`; chainOk = the header's PrevAlh is the
 \* Alh of its predecessor as read back and its BlRoot is the reference root over the Alhs read back
@@ -130,14 +131,34 @@ Observed(id, alh, chainOk, content, via) ==
   /\ id >= 1 /\ id <= committed
   /\ alh = hist[id]                         \* immutable: what was first committed under this id
   /\ chainOk
-  /\ ((via = "ReadTx" /\ id \in DOMAIN cont) => content = cont[id])   \* what its committer wrote
-  /\ (<<via, id>> \in DOMAIN seen => seen[<<via, id>>] = content)       \* and never anything else later
-  /\ seen' = (<<via, id>> :> content) @@ seen
-  /\ UNCHANGED <<synced, extAllow, log, committed, allowed, cflushed, cdurable, hist, acked, cont, everPre, open>>
+  \* Unavailable: the read path reported that the values were discarded by truncation (only below the cut)
+  /\ (content = Unavailable => id < cut)
+  /\ ((via = "ReadTx" /\ id \in DOMAIN cont /\ content # Unavailable) => content = cont[id])   \* what its committer wrote
+  /\ ((<<via, id>> \in DOMAIN seen /\ content # Unavailable) => seen[<<via, id>>] = content)       \* and never anything else later
+  /\ seen' = IF content = Unavailable THEN seen ELSE (<<via, id>> :> content) @@ seen
+  /\ UNCHANGED <<synced, extAllow, log, committed, allowed, cflushed, cdurable, hist, acked, cont, everPre, cut, open>>
+
+\* TruncateUptoTx(n) returned: values of txs below n may be gone, nothing else changes
+Truncated(n) ==
+  /\ open /\ n <= committed
+  /\ cut' = IF n > cut THEN n ELSE cut
+  /\ UNCHANGED <<synced, extAllow, log, committed, allowed, cflushed, cdurable, hist, acked, cont, seen, everPre, open>>
+
+\* an existing database is taken over as it is (a database created by an older release, or the state found after a
+\* crash): its committed history is the baseline from now on
+Adopt(alhs, reloaded) ==
+  LET c == Len(alhs) IN
+  /\ committed' = c /\ hist' = alhs
+  /\ log' = [n \in 1..c |-> [alh |-> alhs[n], prev |-> IF n = 1 THEN Genesis ELSE alhs[n - 1], bl |-> 0, vdur |-> TRUE, tdur |-> TRUE]]
+            \o [k \in 1..Len(reloaded) |-> [alh |-> reloaded[k].alh, prev |-> reloaded[k].prev, bl |-> reloaded[k].bl, vdur |-> TRUE, tdur |-> TRUE]]
+  /\ allowed' = c /\ cflushed' = c /\ cdurable' = c
+  /\ acked' = {} /\ cont' = <<>> /\ seen' = <<>> /\ cut' = 0 /\ open' = TRUE
+  /\ everPre' = {<<k, alhs[k]>> : k \in 1..c} \cup {<<c + k, reloaded[k].alh>> : k \in 1..Len(reloaded)}
+  /\ UNCHANGED <<synced, extAllow>>
 
 Close ==
   /\ open /\ open' = FALSE
-  /\ UNCHANGED <<synced, extAllow, log, committed, allowed, cflushed, cdurable, hist, acked, cont, seen, everPre>>
+  /\ UNCHANGED <<synced, extAllow, log, committed, allowed, cflushed, cdurable, hist, acked, cont, seen, everPre, cut>>
 
 \* clean open: the committed frontier is what it was; precommitted-but-uncommitted txs found in the tx log
 \* are reloaded (possibly ones that had been discarded: the tx log is not truncated on discard)
@@ -150,7 +171,7 @@ Opened(c, reloaded) ==
             \o [k \in 1..Len(reloaded) |-> [alh |-> reloaded[k].alh, prev |-> reloaded[k].prev, bl |-> reloaded[k].bl, vdur |-> TRUE, tdur |-> TRUE]]
   /\ allowed' = c /\ cflushed' = c /\ cdurable' = c
   /\ everPre' = everPre \cup {<<c + k, reloaded[k].alh>> : k \in 1..Len(reloaded)}
-  /\ UNCHANGED <<synced, extAllow, committed, hist, acked, cont, seen>>
+  /\ UNCHANGED <<synced, extAllow, committed, hist, acked, cont, seen, cut>>
 
 -----------------------------------------------------------------------------
 (* Crash durability (C03).  `r` describes what the real recovery code made of a crash image taken at  *)
